@@ -57,6 +57,24 @@ NEEDS = {
  "C15c": ("C15", "damage on the lookup path of the younger of two files holding versions of a key (Version::get keeps searching older files after a table read error and answers from them)"),
  "C16c": ("C16", "crash tearing a manifest append, recovery with log reuse, further reopen (manifest reused although it did not end cleanly)"),
  "C17c": ("C17", "owner closed while a background flush or compaction runs, another open inside that window (background_compaction_scheduled cleared when the task is picked up, not when it ends)"),
+ # ---- fourth wave (each agent was told about the three earlier changes for its property)
+ "C01e": ("C01", "a multi-operation batch as the last write before close, reopen (recovery takes the batch's starting sequence number as the last sequence of the log)"),
+ "C02e": ("C02", "two live WALs at recovery without log reuse, a key in both, the newer WAL's range free in levels 0 and 1 (the last WAL's table is placed with the current version as base while the earlier WAL's table is not in it yet)"),
+ "C03e": ("C03", "two live snapshots, key overwritten between them, table compaction (smallest snapshot read from snapshots.newest()) - the idea of C07b again"),
+ "C04e": ("C04", "iterator created between a memtable rotation and the installation of the flushed table (new_iterator merges the active memtable twice and the immutable memtable not at all)"),
+ "C05e": ("C05", "= C07d: seek-triggered level-0 compaction takes one file only (found again for C05: successive reads of a key go backwards)"),
+ "C06e": ("C06", "(see notes.md of the change)"),
+ "C07e": ("C07", "= C03: upper-bound file search by user key only (found again for C07)"),
+ "C08e": ("C08", "group commit whose WAL append fails: followers are told Ok (Writer::set_operation_completed fills in a default Ok result, set_operation_result keeps the first one)"),
+ "C09e": ("C09", "any iterator step over an entry of 2 MiB or more (read-sampling countdown replaced instead of extended: the loop never ends)"),
+ "C10e": ("C10", "table compaction with two more outputs to open + memtable rotation whose WAL creation fails + the interleaving allocate N / allocate N+1 / give N back / allocate N+1 again (new WAL created with the mutex released; reuse_file_number compares with >=)"),
+ "C11e": ("C11", "a get that fails with a table read error after a new version was installed (early return before release_version: the version stays linked, its files are never reclaimed)"),
+ "C12e": ("C12", "file cut 1..6 bytes into a fragment header (end-of-file test on the header changed to == 0: the torn header is zero-padded and parsed)"),
+ "C13e": ("C13", "seek into the gap above a block's last key but at or below its shortened index key (TwoLevelIterator::seek no longer skips to the next block) - the idea of C04 again"),
+ "C14e": ("C14", "bits_per_key of 45 or more (create_filter caps the probes at 30 but stores the uncapped count)"),
+ "C15e": ("C15", "damaged block in a compaction input whose preceding entry closed an output table, all other inputs exhausted (compact_tables no longer asks the merging iterator for its error)"),
+ "C16e": ("C16", "crash tearing the write of the manifest name into the CURRENT temp file, recovery, reopen (temp file opened for appending: CURRENT gets a garbled name)"),
+ "C17e": ("C17", "destroy_database suspended between dropping the lock and removing the root directory, an open in that window (remove_dir_all instead of remove_dir: the new owner's files and LOCK are wiped)"),
 }
 
 def results():
